@@ -1152,6 +1152,21 @@ func (f *frame) typeAssert(n *node, in *ssa.TypeAssert) bool {
 		n.env[in] = Val{T: in.Type(), Sub: []Val{val, {T: types.Typ[types.Bool], C: []string{ok}}}}
 		return true
 	}
+	if x.inSpec() || f.spec {
+		// In a specification a failed assertion must not end the path: an ended path would
+		// make the clause vacuously true. The asserted value is unconstrained instead, so a
+		// goal that depends on it cannot be proved and an assumed clause says nothing.
+		if ok != "true" {
+			hv := x.havoc(at, "typeassert")
+			if ok == "false" || len(res.C) != len(hv.C) || len(res.Sub) != len(hv.Sub) {
+				res = hv
+			} else {
+				res = x.iteVal(ok, res, hv)
+			}
+		}
+		n.env[in] = res
+		return true
+	}
 	x.safety(f, n, "typeassert", typeKey(at), ok, in.Pos())
 	// after a failed assertion the path ends
 	n.reach = g.Fresh(SortBool, and(n.reach, ok))
